@@ -160,6 +160,18 @@ pub fn build(forms: &[FormT], e: &mut Ent, f: &Force) -> (StepCase, Tag) {
             }));
             let bsz = form.ssz().unwrap_or(dsz);
             b = f.b.unwrap_or_else(|| e.val(bsz));
+            if f.b.is_none() && e.chance(1, 8) {
+                // coincidences of the two operands: equal, complement, negation, neighbours, shifted
+                b = match e.below(7) {
+                    0 => a,
+                    1 => !a,
+                    2 => a.wrapping_neg(),
+                    3 => a.wrapping_add(1),
+                    4 => a.wrapping_sub(1),
+                    5 => a >> 1,
+                    _ => a << 1,
+                };
+            }
             if let FormT::Mulxu(_) = form {
                 // the multiplicand is the low half of the destination; the high half is arbitrary
                 a = (e.u32() & !form.ssz().unwrap().mask()) | (a & form.ssz().unwrap().mask());
